@@ -1165,6 +1165,9 @@ class IRGenerator:
                 'Symbol %s is undefined.' % quote(type_ref.name), *loc)
 
         obj = env[type_ref.name]
+        if isinstance(obj, Environment):
+            raise InvalidSpec(
+                '%s is a namespace, not a type.' % quote(type_ref.name), *loc)
         if obj is Void and type_ref.nullable:
             raise InvalidSpec('Void cannot be marked nullable.',
                               *loc)
